@@ -48,7 +48,7 @@ fn epochs(rng: &mut ChaCha20Rng) -> String {
     1 => "t".into(),
     2 => "2024-06-01".into(),
     3 => "époque-\u{1F600}-\u{4e16}\u{754c}".into(),
-    4 => "\u{0}\n\"quoted\"\\".into(),
+    4 => (*pick(rng, &["\u{0}\n\"quoted\"\\", " 2024-01", "2024-01 ", "\t2024\n", "\u{a0}x\u{3000}", " ", "\n"])).to_string(),
     _ => (0..rng.gen_range(1..20)).map(|_| char::from(rng.gen_range(0x20u8..0x7f))).collect(),
   }
 }
@@ -203,7 +203,7 @@ fn case(rec: &mut Rec, ctx: &Ctx, idx: u64, rng: &mut ChaCha20Rng) {
     }
   }
   // --- a different epoch never yields the clients' key
-  for other in [format!("{}x", epoch), String::new(), "t".to_string(), epochs(rng)] {
+  for other in [format!("{}x", epoch), String::new(), "t".to_string(), epochs(rng), format!("{} ", epoch), format!(" {}", epoch), format!("{}\n", epoch), epoch.trim().to_string()] {
     if other == epoch {
       continue;
     }
